@@ -285,6 +285,13 @@ def _atom(leaf):
     a = common.option_atom(leaf)
     if a is not None:
         return ex.f_atom(a)
+    v = ex.var_of(leaf)
+    if v is not None:
+        d = ex.unique_def(leaf.fn, v)
+        if d is not None:
+            a = common.option_atom(d)
+            if a is not None:
+                return ex.f_atom(a)
     return None
 
 
